@@ -24,6 +24,7 @@ class Mitm(scen.Relay):
         self.recent = {}        # client addr -> list of recent ids
         self.injected = 0
         self.after_any = 0
+        self.chain = None       # running fragment chain: {"i", "n", "size", "seq", "downenc"}
 
     def _note_query(self, dg):
         if dg.data[:3] == proto.RAW_HDR:
@@ -60,6 +61,27 @@ class Mitm(scen.Relay):
         qid = struct.unpack(">H", dg.data[:2])[0]
         q = self.qinfo.get((dg.dst, qid))
         p = self._plan_for(q) if q else None
+        if p is not None and not p.get("done") and p.get("what") == "chain":
+            # from here on every answer to a ping / data query is replaced by the next fragment of ONE downstream
+            # packet that never ends: same sequence number, consecutive fragment numbers, "last" clear, each as large
+            # as the record type carries
+            p["done"] = True
+            real = proto.parse_data_header(proto.decode_answer(D.parse(dg.data)) or b"") or {"dseq": 0}
+            size = p.get("size", 4000)
+            if p.get("records"):        # MX / SRV: this many maximal exchange names per answer (the datagram stays below 64 kB)
+                size = p["records"] * {"T": 153, "S": 183, "U": 183, "V": 214}[p.get("downenc", "T")] - 2 - p.get("short", 0)
+            self.chain = {"i": 0, "n": p.get("n", 16), "size": size,
+                          "seq": (real["dseq"] + 3) % 8, "downenc": p.get("downenc", "T"), "step": "%s/%d" % (q["kind"], q["k"])}
+        if self.chain is not None and q and q["kind"] in ("ping", "data") and self.chain["i"] < self.chain["n"]:
+            c = self.chain
+            i = c["i"]
+            c["i"] += 1
+            body = bytes((37 * i + j) & 255 for j in range(c["size"]))
+            payload = bytes([0x80, (c["seq"] << 5) | ((i & 15) << 1)]) + body
+            data = proto.build_data_answer(q["id"], q["labels"], q["qtype"], payload, c["downenc"])
+            self.injected += 1
+            return [(self.latency, data, dg.src, dg.dst,
+                     {"kind": "chain", "matched": True, "hostile": True, "step": c["step"], "len": len(data)})]
         if p is None or p.get("done"):
             return scen.Relay.route(self, world, dg)
         p["done"] = True
